@@ -550,6 +550,20 @@ fn has_neg_nan(t: &T) -> bool {
     }
 }
 
+
+/// the tree a parsed toml_edit value holds (for comparing what a Display prints)
+fn t_of_value(v: &Value) -> T {
+    match v {
+        Value::String(s) => T::Leaf(Leaf::S(s.value().clone())),
+        Value::Integer(i) => T::Leaf(Leaf::I(*i.value())),
+        Value::Float(f) => T::Leaf(Leaf::F(f.value().to_bits())),
+        Value::Boolean(b) => T::Leaf(Leaf::B(*b.value())),
+        Value::Datetime(d) => T::Leaf(Leaf::D(d.value().to_string())),
+        Value::Array(a) => T::Arr(a.iter().map(t_of_value).collect()),
+        Value::InlineTable(t) => T::Inl(t.iter().map(|(k, x)| (k.to_string(), t_of_value(x))).collect()),
+    }
+}
+
 pub fn check_tree(root: &T, acc: &mut Acc) {
     let mut want = String::new();
     canon_t(root, &mut want);
@@ -590,6 +604,73 @@ pub fn check_tree(root: &T, acc: &mut Acc) {
                 return Err((None, format!("route {}: printed text is not a fixed point of parse -> print: {:?} -> {:?}", route, text, back.to_string())));
             }
             texts.push(text);
+        }
+        // the parts print on their own too: Display of a Value / Item::Value is its token, Display of a Table is the
+        // document of its contents, Display of an ArrayOfTables is the array of inline tables
+        if let T::Tab(e) = root {
+            let doc = build_doc(root, 0);
+            for (k, v) in e {
+                let Some(item) = doc.get(k) else { continue };
+                let shown = item.to_string();
+                match (v, item) {
+                    (T::Leaf(_) | T::Arr(_) | T::Inl(_), Item::Value(val)) => {
+                        if val.to_string() != shown {
+                            return Err((None, format!("Display of Item::Value and of the Value differ at {:?}: {:?} vs {:?}", k, shown, val.to_string())));
+                        }
+                        let back: Value = shown.trim().parse().map_err(|e: toml_edit::TomlError| (None, format!("Display of the value at {:?} = {:?} does not parse as a value: {}", k, shown, e.message())))?;
+                        let (mut g, mut w) = (String::new(), String::new());
+                        canon_t(&t_of_value(&back), &mut g);
+                        canon_t(v, &mut w);
+                        if g != w {
+                            return Err((None, format!("Display of the value at {:?} = {:?} parses back to {} instead of {}", k, shown, g, w)));
+                        }
+                    }
+                    (T::Tab(te), Item::Table(tab)) => {
+                        let text = tab.to_string();
+                        if text != shown {
+                            return Err((None, format!("Display of Item::Table and of the Table differ at {:?}", k)));
+                        }
+                        // values of the table itself must be there; what it does with sub-tables is its own business as
+                        // long as the text is valid and does not invent or change anything
+                        if let Verdict::Valid { tree, .. } = ref_parse(&text) {
+                            let mut got = String::new();
+                            canon_node(&tree, &mut got);
+                            let own_values = T::Tab(te.iter().filter(|(_, x)| x.is_value()).cloned().collect());
+                            let mut w = String::new();
+                            canon_t(&own_values, &mut w);
+                            let mut full = String::new();
+                            canon_t(&T::Tab(te.clone()), &mut full);
+                            if got != w && got != full {
+                                return Err((None, format!("Display of the table at {:?} = {:?} decodes to {} (the table holds {})", k, text, got, full)));
+                            }
+                        } else {
+                            return Err((None, format!("Display of the table at {:?} is not valid TOML: {:?}", k, text)));
+                        }
+                    }
+                    (T::Aot(els), Item::ArrayOfTables(a)) => {
+                        if els.is_empty() {
+                            continue;
+                        }
+                        let text = a.to_string();
+                        let back: Value = text.trim().parse().map_err(|e: toml_edit::TomlError| (None, format!("Display of the array of tables at {:?} = {:?} does not parse as a value: {}", k, text, e.message())))?;
+                        fn inl2(t: &T) -> T {
+                            match t {
+                                T::Tab(e) | T::Inl(e) => T::Inl(e.iter().map(|(k, v)| (k.clone(), inl2(v))).collect()),
+                                T::Aot(els) => T::Arr(els.iter().map(|el| T::Inl(el.iter().map(|(k, v)| (k.clone(), inl2(v))).collect())).collect()),
+                                T::Arr(a) => T::Arr(a.iter().map(inl2).collect()),
+                                T::Leaf(_) => t.clone(),
+                            }
+                        }
+                        let (mut g, mut w) = (String::new(), String::new());
+                        canon_t(&t_of_value(&back), &mut g);
+                        canon_t(&inl2(v), &mut w);
+                        if g != w {
+                            return Err((None, format!("Display of the array of tables at {:?} = {:?} parses back to {} instead of {}", k, text, g, w)));
+                        }
+                    }
+                    _ => {}
+                }
+            }
         }
         // conversion route: built as standard tables / arrays of tables (route 0), then every root entry of those kinds
         // turned into a value with make_value(): `[t]` / `[[t.v]]` -> `t = { v = [{..}] }`
